@@ -13,7 +13,7 @@ use serde::{Deserialize, Serialize};
 
 use crate::btor::BLine;
 use crate::engine::{last_panic_location, panic_message};
-use crate::source::{build_reader, Feed, SrcLog};
+use crate::source::{build_init, Feed, Init, SrcLog};
 
 #[derive(Clone, Copy, Debug, PartialEq, Eq, Hash, Serialize, Deserialize, PartialOrd, Ord)]
 pub enum ParserId {
@@ -354,13 +354,25 @@ fn stop_btor(e: flussab_btor2::ParseError) -> Stop {
     }
 }
 
+/// Constructs a parser through the constructor that matches how the source was prepared.
+macro_rules! make_parser {
+    ($P:ty, $init:expr, $cfg:expr) => {
+        match $init {
+            Init::Reader(r) => <$P>::new(LineReader::new(r), $cfg),
+            Init::Read(s) => <$P>::from_read(s, $cfg),
+            Init::Boxed(s) => <$P>::from_boxed_dyn_read(Box::new(s), $cfg),
+            Init::Buf(b) => <$P>::from_buf_reader(b, $cfg),
+        }
+    };
+}
+
 fn lits64<L: Dimacs>(l: &[L]) -> Vec<i64> {
     l.iter().map(|x| x.dimacs() as i64).collect()
 }
 
-fn drive_cnf<L: Dimacs>(r: DeferredReader<'static>, flag: bool, c: &mut Collector) -> Result<(), Stop> {
+fn drive_cnf<L: Dimacs>(r: Init, flag: bool, c: &mut Collector) -> Result<(), Stop> {
     use flussab_cnf::cnf::{Config, Parser};
-    let mut p = Parser::<L>::new(LineReader::new(r), Config::default().ignore_header(flag)).map_err(stop_cnf)?;
+    let mut p = make_parser!(Parser::<L>, r, Config::default().ignore_header(flag)).map_err(stop_cnf)?;
     if let Some(h) = p.header() {
         c.push(|| Item::Header(vec![h.var_count as u64, h.clause_count as u64]));
     }
@@ -373,9 +385,9 @@ fn drive_cnf<L: Dimacs>(r: DeferredReader<'static>, flag: bool, c: &mut Collecto
     Ok(())
 }
 
-fn drive_wcnf<L: Dimacs>(r: DeferredReader<'static>, flag: bool, c: &mut Collector) -> Result<(), Stop> {
+fn drive_wcnf<L: Dimacs>(r: Init, flag: bool, c: &mut Collector) -> Result<(), Stop> {
     use flussab_cnf::wcnf::{Config, Parser};
-    let mut p = Parser::<L>::new(LineReader::new(r), Config::default().ignore_header(flag)).map_err(stop_cnf)?;
+    let mut p = make_parser!(Parser::<L>, r, Config::default().ignore_header(flag)).map_err(stop_cnf)?;
     if let Some(h) = p.header() {
         c.push(|| Item::Header(vec![h.var_count as u64, h.clause_count as u64, h.top_weight]));
     }
@@ -388,9 +400,9 @@ fn drive_wcnf<L: Dimacs>(r: DeferredReader<'static>, flag: bool, c: &mut Collect
     Ok(())
 }
 
-fn drive_gcnf<L: Dimacs>(r: DeferredReader<'static>, flag: bool, c: &mut Collector) -> Result<(), Stop> {
+fn drive_gcnf<L: Dimacs>(r: Init, flag: bool, c: &mut Collector) -> Result<(), Stop> {
     use flussab_cnf::gcnf::{Config, Parser};
-    let mut p = Parser::<L>::new(LineReader::new(r), Config::default().ignore_header(flag)).map_err(stop_cnf)?;
+    let mut p = make_parser!(Parser::<L>, r, Config::default().ignore_header(flag)).map_err(stop_cnf)?;
     if let Some(h) = p.header() {
         c.push(|| Item::Header(vec![h.var_count as u64, h.clause_count as u64, h.group_count as u64]));
     }
@@ -403,9 +415,9 @@ fn drive_gcnf<L: Dimacs>(r: DeferredReader<'static>, flag: bool, c: &mut Collect
     Ok(())
 }
 
-fn drive_log<L: Dimacs>(r: DeferredReader<'static>, flag: bool, c: &mut Collector) -> Result<(), Stop> {
+fn drive_log<L: Dimacs>(r: Init, flag: bool, c: &mut Collector) -> Result<(), Stop> {
     use flussab_cnf::sat_solver_log::{parse_log, Config};
-    let mut lr = LineReader::new(r);
+    let mut lr = LineReader::new(r.into_reader());
     let log = parse_log::<L>(&mut lr, Config::default().ignore_unknown_lines(flag)).map_err(stop_cnf)?;
     c.push(|| Item::Log {
         sat: log.satisfiable,
@@ -442,9 +454,9 @@ fn header_item_binary(h: &flussab_aiger::binary::Header) -> Item {
     ])
 }
 
-fn drive_aag<L: Lit>(r: DeferredReader<'static>, c: &mut Collector) -> Result<(), Stop> {
+fn drive_aag<L: Lit>(r: Init, c: &mut Collector) -> Result<(), Stop> {
     use flussab_aiger::ascii::{Config, Parser};
-    let p = Parser::<L>::new(LineReader::new(r), Config::default()).map_err(stop_aiger)?;
+    let p = make_parser!(Parser::<L>, r, Config::default()).map_err(stop_aiger)?;
     let h = p.header().clone();
     c.push(|| header_item_ascii(&h));
     let code = |l: L| l.code() as u64;
@@ -507,9 +519,9 @@ fn drive_aag<L: Lit>(r: DeferredReader<'static>, c: &mut Collector) -> Result<()
     Ok(())
 }
 
-fn drive_aig<L: Lit>(r: DeferredReader<'static>, c: &mut Collector) -> Result<(), Stop> {
+fn drive_aig<L: Lit>(r: Init, c: &mut Collector) -> Result<(), Stop> {
     use flussab_aiger::binary::{Config, Parser};
-    let p = Parser::<L>::new(LineReader::new(r), Config::default()).map_err(stop_aiger)?;
+    let p = make_parser!(Parser::<L>, r, Config::default()).map_err(stop_aiger)?;
     let h = p.header().clone();
     c.push(|| header_item_binary(&h));
     let code = |l: L| l.code() as u64;
@@ -568,25 +580,25 @@ fn drive_aig<L: Lit>(r: DeferredReader<'static>, c: &mut Collector) -> Result<()
     Ok(())
 }
 
-fn drive_aag_parse<L: Lit>(r: DeferredReader<'static>, c: &mut Collector) -> Result<(), Stop> {
+fn drive_aag_parse<L: Lit>(r: Init, c: &mut Collector) -> Result<(), Stop> {
     use flussab_aiger::ascii::{Config, Parser};
-    let p = Parser::<L>::new(LineReader::new(r), Config::default()).map_err(stop_aiger)?;
+    let p = make_parser!(Parser::<L>, r, Config::default()).map_err(stop_aiger)?;
     let aig = p.parse().map_err(stop_aiger)?;
     c.push(|| Item::Aig(Box::new(aig_owned(&aig))));
     Ok(())
 }
 
-fn drive_aig_parse<L: Lit>(r: DeferredReader<'static>, c: &mut Collector) -> Result<(), Stop> {
+fn drive_aig_parse<L: Lit>(r: Init, c: &mut Collector) -> Result<(), Stop> {
     use flussab_aiger::binary::{Config, Parser};
-    let p = Parser::<L>::new(LineReader::new(r), Config::default()).map_err(stop_aiger)?;
+    let p = make_parser!(Parser::<L>, r, Config::default()).map_err(stop_aiger)?;
     let aig = p.parse().map_err(stop_aiger)?;
     c.push(|| Item::Aig(Box::new(ordered_owned(&aig))));
     Ok(())
 }
 
-fn drive_btor(r: DeferredReader<'static>, c: &mut Collector) -> Result<(), Stop> {
+fn drive_btor(r: Init, c: &mut Collector) -> Result<(), Stop> {
     use flussab_btor2::{Config, Parser};
-    let mut p = Parser::new(LineReader::new(r), Config::default()).map_err(stop_btor)?;
+    let mut p = make_parser!(Parser, r, Config::default()).map_err(stop_btor)?;
     while let Some(line) = p.next_line().map_err(stop_btor)? {
         c.push(|| Item::Btor(BLine::from_line(&line)));
     }
@@ -600,6 +612,11 @@ pub fn run_on_reader(
     log: Rc<RefCell<SrcLog>>,
     collect: bool,
 ) -> Trace {
+    run_on_init(spec, Init::Reader(reader), log, collect)
+}
+
+/// Runs the parser selected by `spec` over a prepared source.
+pub fn run_on_init(spec: &Spec, reader: Init, log: Rc<RefCell<SrcLog>>, collect: bool) -> Trace {
     let mut c = Collector {
         collect,
         items: vec![],
@@ -669,8 +686,8 @@ pub fn run(
     cuts: Option<Rc<Vec<usize>>>,
     collect: bool,
 ) -> (Trace, SrcLog) {
-    let (reader, log) = build_reader(data, feed, cuts);
-    let t = run_on_reader(spec, reader, log.clone(), collect);
+    let (init, log) = build_init(data, feed, cuts);
+    let t = run_on_init(spec, init, log.clone(), collect);
     let l = log.borrow().clone();
     (t, l)
 }
